@@ -637,4 +637,14 @@ example : FormatC.scanformat [45, 48, 49, 50, 46, 51, 100, 65]
     = .ok { p := 6, width := [49, 50], precision := [51], form := [37, 45, 48, 49, 50, 46, 51, 108, 100] } ∧
     FormatC.scanformat [45, 45, 45, 45, 45, 45, 100] = .panic ∧ FormatC.parse [49, 50, 51, 100] = none := by decide
 
+/-- where `scanformat` raises on a directive, the reference formatter (`Format.go`, which reads the directive with the same
+    expressions) stops with an error and exactly the output produced so far — the partial output `buffer/format` leaves -/
+theorem format_error_where_scan_raises (fuel : Nat) (rest : Bytes) (hz : ∀ c ∈ rest, c ≠ 0) (c0 : Nat) (r0 : Bytes)
+    (hr : rest = c0 :: r0) (h37 : c0 ≠ 37) (a : Format.FArg) (args : List Format.FArg) (out : Bytes)
+    (hs : FormatC.scanformat rest = .panic) :
+    Format.go (fuel + 1) (37 :: rest) (a :: args) out = .err out :=
+  FormatC.go_error_of_scan_panic fuel rest hz c0 r0 hr h37 a args out hs
+
+example : Format.format [97, 37, 49, 50, 51, 100] [.int 5] = .err [97] := by decide
+
 end JanetModel.Props.C17
